@@ -449,6 +449,12 @@ func init() {
 						return true
 					}
 					for _, l := range as.Lhs {
+						elem := ""
+						if ix, isIx := l.(*ast.IndexExpr); isIx {
+							// g.table[k] = v: the content of a container the generator object holds is state too
+							l = ix.X
+							elem = " (an element of it)"
+						}
 						sel, ok := l.(*ast.SelectorExpr)
 						if !ok {
 							continue
@@ -461,7 +467,7 @@ func init() {
 							if nt, ok := types.Unalias(p.Elem()).(*types.Named); ok && nt.Obj().Name() == "Generator" && nt.Obj().Pkg() == pkg {
 								key := short + ".Generator." + sel.Sel.Name + "@" + shortKey(fi.Obj)
 								if !allowed[key] {
-									probs = append(probs, fmt.Sprintf("%s assigns Generator.%s (%s)", shortKey(fi.Obj), sel.Sel.Name, w.pos(as.Pos())))
+									probs = append(probs, fmt.Sprintf("%s assigns Generator.%s%s (%s)", shortKey(fi.Obj), sel.Sel.Name, elem, w.pos(as.Pos())))
 								}
 							}
 						}
@@ -1675,6 +1681,12 @@ func ownedObject(info *types.Info, body ast.Node, v *types.Var) bool {
 	return owned && assigned
 }
 
+func exprText2(fset *token.FileSet, n ast.Node) string {
+	var b bytes.Buffer
+	printer.Fprint(&b, fset, n)
+	return b.String()
+}
+
 func exprText(fset *token.FileSet, e ast.Expr) string {
 	var b bytes.Buffer
 	printer.Fprint(&b, fset, e)
@@ -1781,6 +1793,24 @@ func init() {
 						return true
 					}
 				}
+				// ... or the function overrides / short-cuts the empty case explicitly: an `if` whose condition tests
+				// len(<the same expression>) == 0 and whose body mentions the literal []byte("[]")
+				argText := exprText(w.Fset, call.Args[0])
+				guarded := false
+				ast.Inspect(fi.Decl.Body, func(m ast.Node) bool {
+					ifs, isIf := m.(*ast.IfStmt)
+					if !isIf {
+						return true
+					}
+					cond := exprText(w.Fset, ifs.Cond)
+					if strings.Contains(cond, "len("+argText+") == 0") && strings.Contains(exprText2(w.Fset, ifs.Body), `[]byte("[]")`) {
+						guarded = true
+					}
+					return true
+				})
+				if guarded {
+					return true
+				}
 				probs = append(probs, fmt.Sprintf("%s hands the slice %s to json.Marshal, which may be nil: an empty list would be written as null, not [] (%s)", shortKey(fi.Obj), exprText(w.Fset, call.Args[0]), w.pos(call.Pos())))
 				return true
 			})
@@ -1788,7 +1818,7 @@ func init() {
 		if sites == 0 {
 			probs = append(probs, "no json.Marshal call with a slice argument found in the extracted codecs (the extraction schema has a root-unwrap list): the rule would be vacuous")
 		}
-		return []OblResult{structResult("emitted.json.lists_are_arrays", "every slice the extracted codecs hand to json.Marshal is a local that is only ever assigned make(...), a composite literal or an append to itself: an empty list is written as [], never as null (the documented form of a list, the OpenAPI array schema and the TypeScript array type all exclude null)", uniq(probs))}
+		return []OblResult{structResult("emitted.json.lists_are_arrays", "every slice the extracted codecs hand to json.Marshal is a local that is only ever assigned make(...), a composite literal or an append to itself, or its empty case is written as the literal [] by an explicit guard: an empty list is written as [], never as null (the documented form of a list, the OpenAPI array schema and the TypeScript array type all exclude null)", uniq(probs))}
 	}
 }
 
@@ -1869,6 +1899,27 @@ func init() {
 							return true // strings.Split / Fields return new slices
 						}
 					}
+				case *ast.SelectorExpr:
+					// a field that this function itself (only ever) assigns a container it created: obj.F = make(...); obj.F[i] = v
+					want := exprText(w.Fset, x)
+					okAll, seen := true, false
+					ast.Inspect(fi.Decl.Body, func(nd ast.Node) bool {
+						if as, isAs := nd.(*ast.AssignStmt); isAs && len(as.Lhs) == len(as.Rhs) {
+							for i, l := range as.Lhs {
+								if _, isSel := l.(*ast.SelectorExpr); isSel && exprText(w.Fset, l) == want {
+									seen = true
+									if r, isSel2 := unparen(as.Rhs[i]).(*ast.SelectorExpr); isSel2 && exprText(w.Fset, r) == want {
+										continue
+									}
+									if !isFresh(as.Rhs[i]) {
+										okAll = false
+									}
+								}
+							}
+						}
+						return true
+					})
+					return seen && okAll
 				}
 				return false
 			}
@@ -1976,6 +2027,12 @@ func init() {
 						if ix, ok := l.(*ast.IndexExpr); ok {
 							if t := info.TypeOf(ix.X); t != nil && descriptorElems(t) && !isFresh(ix.X) {
 								probs = append(probs, fmt.Sprintf("%s assigns an element of %s, a list of descriptors it did not create (%s)", shortKey(fi.Obj), exprText(w.Fset, ix.X), w.pos(x.Pos())))
+							} else if t != nil && !isFresh(ix.X) {
+								// an element store into any slice the function did not create writes the caller's backing array
+								// (a parameter list shared by several callees, e.g. the per-service header parameters)
+								if _, isSlice := t.Underlying().(*types.Slice); isSlice {
+									probs = append(probs, fmt.Sprintf("%s assigns an element of %s, a slice it did not create: the caller's list is rewritten in place (%s)", shortKey(fi.Obj), exprText(w.Fset, ix.X), w.pos(x.Pos())))
+								}
 							}
 						}
 						// a field of a descriptor object (protogen.File/Service/Method/Message/Field/Enum/...) is never assigned
@@ -1997,7 +2054,7 @@ func init() {
 		if sites == 0 {
 			probs = append(probs, "no in-place mutator call found in the generator packages (CombineHeaders and OrderedEnums sort): the rule would be vacuous")
 		}
-		return []OblResult{structResult("C15.inplace.own", "every sort / reverse / copy-into in the generator packages and plugin mains is applied to a slice created in the same function, no element of a list of descriptors and no field of a descriptor object is assigned: descriptors, which all files, services and passes of an invocation share, are never reordered or rewritten", uniq(probs))}
+		return []OblResult{structResult("C15.inplace.own", "every sort / reverse / copy-into in the generator packages and plugin mains is applied to a slice created in the same function, no element of a slice the function did not create and no field of a descriptor object is assigned: descriptors and shared parameter lists, which all files, services and passes of an invocation share, are never reordered or rewritten", uniq(probs))}
 	}
 }
 
@@ -2113,5 +2170,206 @@ func init() {
 			probs = append(probs, "no emitted printf-family format string found: the rule would be vacuous")
 		}
 		return []OblResult{structResult("C13.format_strings.identifiers_only", "every format string of a printf-family call that the generators emit consists of literal text and spliced Go identifiers (GoName / GoIdent, possibly case-converted) only: no annotation text can introduce a verb, a quote or a backslash into it", uniq(probs))}
+	}
+}
+
+// ---------------------------------------------------------------------------------------
+// C17: a generated client call only reads the request message it is given. Two calls may share one request (callers
+// routinely reuse a message); a client that writes it - even temporarily - makes one call's URL and body depend on
+// the other's progress. Taint rule over the extracted client: everything derived from the `req` parameter of an RPC
+// method (the message, its reflection view, locals computed from them, and the parameters of emitted helpers they are
+// passed to) is never the root of an assignment and never the target of a mutating call.
+func init() {
+	structuralRules["emitted.c17.request_readonly"] = func(w *World) []OblResult {
+		var probs []string
+		if w.EmittedClient == nil {
+			return []OblResult{structResult("C17.client.request_readonly", "", []string{"emitted client not loaded"})}
+		}
+		pkg := w.EmittedClient
+		info := pkg.TypesInfo
+		mutatingMethods := map[string]bool{"Set": true, "Clear": true, "Mutable": true, "Reset": true, "SetUnknown": true, "NewField": true, "UnmarshalJSON": true, "Unmarshal": true, "Append": true, "Truncate": true, "ClearOneof": true}
+		// (function, parameter index) pairs known to receive request-derived values
+		type pkey struct {
+			f *types.Func
+			i int
+		}
+		tainted := map[pkey]bool{}
+		rpcMethods := 0
+		var fis []*FuncInfo
+		for _, k := range w.sortedFuncNames() {
+			fi := w.Funcs[k]
+			if fi.Decl == nil || fi.Decl.Body == nil || fi.Obj.Pkg() != pkg.Types || !strings.Contains(filepath.Base(w.Fset.Position(fi.Decl.Pos()).Filename), "_client") {
+				continue
+			}
+			fis = append(fis, fi)
+			sig := fi.Obj.Type().(*types.Signature)
+			if sig.Recv() != nil && strings.HasSuffix(strings.TrimPrefix(sig.Recv().Type().String(), "*"), "Client") && sig.Params().Len() >= 2 &&
+				sig.Params().At(0).Type().String() == "context.Context" {
+				tainted[pkey{fi.Obj, 1}] = true
+				rpcMethods++
+			}
+		}
+		analyse := func(fi *FuncInfo, report bool) bool {
+			changed := false
+			sig := fi.Obj.Type().(*types.Signature)
+			tv := map[*types.Var]bool{}
+			for i := 0; i < sig.Params().Len(); i++ {
+				if tainted[pkey{fi.Obj, i}] {
+					tv[sig.Params().At(i)] = true
+				}
+			}
+			if len(tv) == 0 {
+				return false
+			}
+			var mentions func(e ast.Expr) bool
+			mentions = func(e ast.Expr) bool {
+				found := false
+				ast.Inspect(e, func(n ast.Node) bool {
+					if id, ok := n.(*ast.Ident); ok {
+						if v, ok := info.Uses[id].(*types.Var); ok && tv[v] {
+							found = true
+						}
+					}
+					return !found
+				})
+				return found
+			}
+			refLike := func(t types.Type) bool {
+				if t == nil {
+					return false
+				}
+				switch t.Underlying().(type) {
+				case *types.Pointer, *types.Interface, *types.Map, *types.Slice:
+					return true
+				}
+				return false
+			}
+			// locals computed from tainted values that can still reach the message (reference-like types only)
+			for grow := true; grow; {
+				grow = false
+				ast.Inspect(fi.Decl.Body, func(n ast.Node) bool {
+					if as, ok := n.(*ast.AssignStmt); ok && len(as.Lhs) == len(as.Rhs) {
+						for i, l := range as.Lhs {
+							if id, ok := l.(*ast.Ident); ok {
+								v, _ := info.Defs[id].(*types.Var)
+								if v == nil {
+									v, _ = info.Uses[id].(*types.Var)
+								}
+								if v != nil && !tv[v] && refLike(v.Type()) && mentions(as.Rhs[i]) {
+									// results of pure encoders are new values, not views of the message
+									if call, isCall := unparen(as.Rhs[i]).(*ast.CallExpr); isCall {
+										if sel, isSel := unparen(call.Fun).(*ast.SelectorExpr); isSel {
+											if f, isF := info.Uses[sel.Sel].(*types.Func); isF && f.Pkg() != nil && f.Pkg() != pkg.Types {
+												if s, _ := f.Type().(*types.Signature); s != nil && s.Recv() == nil {
+													continue
+												}
+											}
+										}
+									}
+									tv[v] = true
+									grow = true
+								}
+							}
+						}
+					}
+					return true
+				})
+			}
+			ast.Inspect(fi.Decl.Body, func(n ast.Node) bool {
+				switch x := n.(type) {
+				case *ast.AssignStmt:
+					if report {
+						for _, l := range x.Lhs {
+							if _, isIdent := l.(*ast.Ident); !isIdent && mentionsRoot(info, l, tv) {
+								probs = append(probs, fmt.Sprintf("%s assigns through %s, which is (derived from) the caller's request message (%s)", fi.Obj.Name(), exprText(w.Fset, l), w.pos(x.Pos())))
+							}
+						}
+					}
+				case *ast.CallExpr:
+					// propagation into emitted helpers, parameter by parameter
+					var callee *types.Func
+					var recvExpr ast.Expr
+					switch fn := unparen(x.Fun).(type) {
+					case *ast.Ident:
+						callee, _ = info.Uses[fn].(*types.Func)
+					case *ast.SelectorExpr:
+						callee, _ = info.Uses[fn.Sel].(*types.Func)
+						recvExpr = fn.X
+					}
+					if callee != nil && callee.Pkg() == pkg.Types {
+						for i, a := range x.Args {
+							if mentions(a) && refLike(info.TypeOf(a)) && !tainted[pkey{callee, i}] {
+								tainted[pkey{callee, i}] = true
+								changed = true
+							}
+						}
+					}
+					if !report || callee == nil {
+						return true
+					}
+					name := callee.Name()
+					csig, _ := callee.Type().(*types.Signature)
+					if csig != nil && csig.Recv() != nil && mutatingMethods[name] && recvExpr != nil && mentions(recvExpr) {
+						probs = append(probs, fmt.Sprintf("%s calls %s on %s, which is (derived from) the caller's request message (%s)", fi.Obj.Name(), name, exprText(w.Fset, recvExpr), w.pos(x.Pos())))
+					}
+					if csig != nil && csig.Recv() == nil && callee.Pkg() != nil {
+						q := callee.Pkg().Name() + "." + name
+						dst := -1
+						switch q {
+						case "proto.Reset", "proto.Merge", "proto.SetExtension", "proto.ClearExtension":
+							dst = 0
+						case "proto.Unmarshal", "protojson.Unmarshal", "json.Unmarshal":
+							dst = 1
+						}
+						if dst >= 0 && dst < len(x.Args) && mentions(x.Args[dst]) {
+							probs = append(probs, fmt.Sprintf("%s passes %s, which is (derived from) the caller's request message, to %s as its target (%s)", fi.Obj.Name(), exprText(w.Fset, x.Args[dst]), q, w.pos(x.Pos())))
+						}
+					}
+				}
+				return true
+			})
+			return changed
+		}
+		for changed := true; changed; {
+			changed = false
+			for _, fi := range fis {
+				if analyse(fi, false) {
+					changed = true
+				}
+			}
+		}
+		for _, fi := range fis {
+			analyse(fi, true)
+		}
+		if rpcMethods == 0 {
+			probs = append(probs, "no RPC method found in the extracted client: the rule would be vacuous")
+		}
+		return []OblResult{structResult("C17.client.request_readonly", "the extracted client only reads the request message a call is given: nothing derived from the req parameter of an RPC method (its reflection view and the helpers it is passed to included) is assigned through or is the target of a mutating call, so calls that share a request message cannot influence each other", uniq(probs))}
+	}
+}
+
+// mentionsRoot: the root object of an lvalue (x in x.f, x[i], *x) is one of the given variables.
+func mentionsRoot(info *types.Info, l ast.Expr, vars map[*types.Var]bool) bool {
+	for {
+		switch x := unparen(l).(type) {
+		case *ast.SelectorExpr:
+			l = x.X
+		case *ast.IndexExpr:
+			l = x.X
+		case *ast.StarExpr:
+			l = x.X
+		case *ast.CallExpr:
+			// x.ProtoReflect().Set(...) is a call, not an lvalue; an lvalue through a call result: look at the receiver
+			if sel, ok := unparen(x.Fun).(*ast.SelectorExpr); ok {
+				l = sel.X
+				continue
+			}
+			return false
+		case *ast.Ident:
+			v, _ := info.Uses[x].(*types.Var)
+			return v != nil && vars[v]
+		default:
+			return false
+		}
 	}
 }
